@@ -1,4 +1,134 @@
-(* C01 - lemmas (being built) *)
-From Coq Require Import List NArith ZArith Bool Lia.
+(* C01 - lemmas, part 3: encoder/decoder composition (round trip), totality of the encoder on its domain,
+   single-bit changes.  Parts 1 and 2 are re-exported. *)
+From Coq Require Import List NArith ZArith Bool Lia ZifyBool ZifyNat ZifyN.
 From Orso Require Import Gen.C01_RowFmt Model.C01.
+From Orso Require Export Proofs.C01_Header Proofs.C01_Codec.
 Import ListNotations.
+Open Scope N_scope.
+
+(* ---------- value depth vs container depth ---------- *)
+Lemma vdepth_cdepth v : N.of_nat (vdepth v) <= cdepth v + 1.
+Proof.
+  induction v as [| b | z | b | s | s | l IH | kvs IH] using mval_ind'; try (cbn [vdepth cdepth]; lia).
+  - cbn [vdepth cdepth].
+    assert (G : N.of_nat (fold_right (fun x m => Nat.max (vdepth x) m) 1%nat l) <= fold_right (fun x m => N.max (cdepth x) m) 0 l + 1).
+    { induction IH as [|x t Hx Ht IHt]; cbn [fold_right]; lia. }
+    lia.
+  - cbn [vdepth cdepth].
+    assert (G : N.of_nat (fold_right (fun kv m => Nat.max (vdepth (snd kv)) m) 1%nat kvs) <= fold_right (fun kv m => N.max (cdepth (snd kv)) m) 0 kvs + 1).
+    { induction IH as [|x t Hx Ht IHt]; cbn [fold_right]; lia. }
+    lia.
+Qed.
+
+Lemma post_plain row : no_datetime row = true -> post row = Ok (map CVal row).
+Proof.
+  unfold no_datetime. induction row as [|it r IH]; intros H; [reflexivity|].
+  cbn [forallb] in H. apply andb_prop in H. destruct H as [Hit Hr].
+  cbn [post map]. unfold rewrite_item. destruct (dt_form it); [discriminate|].
+  rewrite (IH Hr). reflexivity.
+Qed.
+
+Lemma skipn_exact {A} (a b : list A) k : length a = k -> skipn k (a ++ b) = b.
+Proof. intros <-. induction a; [reflexivity|]. cbn [length app skipn]. assumption. Qed.
+
+Lemma hdr_ok_record ts payload : (Z.of_N (len payload) <= row_MAXIMUM_RECORD_SIZE)%Z -> hdr_ok (record ts payload) = true.
+Proof.
+  intros Hcap. pose proof cap_lt_2_31 as Hc.
+  destruct (record_shape ts payload) as (c2 & c3 & c4 & c5 & tl & Hr & H2 & H3 & H4 & H5 & Hf & Htl); [lia|].
+  unfold hdr_ok. cbv zeta. rewrite record_length. rewrite Hr. rewrite record_size_bytes by assumption.
+  rewrite Hf. rewrite wrap32_small by lia.
+  unfold version_ok, pyx_version_offset, pyx_VERSION_MASK, pyx_VERSION_VALUE, pyx_HEADER_SIZE, byte_at. cbn [nth].
+  change (N.land 16 240 =? 16) with true. cbn [negb orb andb].
+  destruct (Z.of_nat (14 + length payload) <? 14)%Z eqn:E; [lia|]. cbn [negb andb].
+  unfold len. lia.
+Qed.
+
+(* every emitted record passes the three header checks and unpacks to exactly the row that was packed;
+   what remains is the ['__datetime__', x] rewrite *)
+Theorem decode_encode ts row r : encode_row ts row = Ok r -> decode_row r = post row.
+Proof.
+  intros He. apply encode_row_inv in He. destruct He as (-> & Hcap & Hwf & Hd).
+  rewrite decode_row_hdr_ok by (apply hdr_ok_record; exact Hcap).
+  unfold record. change (Z.to_nat pyx_HEADER_SIZE) with 14%nat.
+  rewrite !app_assoc. rewrite skipn_exact by (rewrite !app_length, !be_length; reflexivity).
+  rewrite <- (app_nil_r (pack (MArr row))).
+  rewrite unpack_pack; [reflexivity | exact Hwf |].
+  unfold dec_fuel. pose proof (vdepth_cdepth (MArr row)) as Hv. pose proof enc_limit_le_dec_limit as Hl.
+  unfold enc_limit in Hl. lia.
+Qed.
+
+Theorem roundtrip ts row r : encode_row ts row = Ok r -> no_datetime row = true ->
+  decode_row r = Ok (map CVal row).
+Proof. intros He Hnd. rewrite (decode_encode ts row r He). apply post_plain. exact Hnd. Qed.
+
+(* the encoder refuses nothing that is well-formed, shallow enough and within the cap *)
+Lemma encode_total ts row : wf (MArr row) -> cdepth (MArr row) <= enc_container_limit ->
+  (Z.of_N (len (pack (MArr row))) <= row_MAXIMUM_RECORD_SIZE)%Z ->
+  encode_row ts row = Ok (record ts (pack (MArr row))).
+Proof.
+  unfold wf. intros Hwf Hd Hcap. unfold encode_row. rewrite Hwf.
+  destruct (cdepth (MArr row) <=? enc_container_limit) eqn:E; [|lia]. cbn [andb negb].
+  unfold size_ok. destruct (row_MAXIMUM_RECORD_SIZE <? Z.of_N (len (pack (MArr row))))%Z eqn:F; [lia|]. reflexivity.
+Qed.
+
+Theorem roundtrip_explicit ts row : wf (MArr row) -> cdepth (MArr row) <= enc_container_limit ->
+  no_datetime row = true -> (Z.of_N (len (pack (MArr row))) <= row_MAXIMUM_RECORD_SIZE)%Z ->
+  exists r, encode_row ts row = Ok r /\ decode_row r = Ok (map CVal row).
+Proof.
+  intros Hwf Hd Hnd Hcap. eexists. split; [apply encode_total; assumption|].
+  eapply roundtrip; [apply encode_total; assumption | exact Hnd].
+Qed.
+
+(* above the cap the encoder raises DataError and emits nothing *)
+Lemma encode_oversize ts row : wf (MArr row) -> cdepth (MArr row) <= enc_container_limit ->
+  (row_MAXIMUM_RECORD_SIZE < Z.of_N (len (pack (MArr row))))%Z -> encode_row ts row = Raise DataError.
+Proof.
+  unfold wf. intros Hwf Hd Hcap. unfold encode_row. rewrite Hwf.
+  destruct (cdepth (MArr row) <=? enc_container_limit) eqn:E; [|lia]. cbn [andb negb].
+  unfold size_ok. destruct (row_MAXIMUM_RECORD_SIZE <? Z.of_N (len (pack (MArr row))))%Z eqn:F; [reflexivity|lia].
+Qed.
+
+(* ---------- single-bit changes of the version nibble and of the four length bytes ---------- *)
+Lemma flip_enum :
+  forallb (fun b => forallb (fun i => (flip_bit b i <? 256) && negb (flip_bit b i =? b)) (map N.of_nat (seq 0 8)))
+          (map N.of_nat (seq 0 256)) = true.
+Proof. vm_compute. reflexivity. Qed.
+
+Lemma in_range k n : n < N.of_nat k -> In n (map N.of_nat (seq 0 k)).
+Proof. intros H. apply in_map_iff. exists (N.to_nat n). split; [apply N2Nat.id|]. apply in_seq. lia. Qed.
+
+Lemma flip_bit_byte b i : b < 256 -> i < 8 -> flip_bit b i < 256 /\ flip_bit b i <> b.
+Proof.
+  intros Hb Hi. pose proof flip_enum as E. rewrite forallb_forall in E.
+  specialize (E b (in_range 256 b Hb)). rewrite forallb_forall in E. specialize (E i (in_range 8 i Hi)).
+  apply andb_prop in E. destruct E as [E1 E2]. apply negb_true_iff in E2. split; lia.
+Qed.
+
+Theorem single_bit_flips ts row r i b : encode_row ts row = Ok r ->
+  (i = 0 /\ 4 <= b < 8) \/ (2 <= i <= 5 /\ b < 8) ->
+  decode_row (flip_at r i b) = Raise DataError.
+Proof.
+  intros He Hib. pose proof He as He0. apply encode_row_inv in He0. destruct He0 as (Er & Hcap & _ & _).
+  pose proof cap_lt_2_31 as Hc.
+  destruct (record_shape ts (pack (MArr row))) as (c2 & c3 & c4 & c5 & tl & Hr & H2 & H3 & H4 & H5 & Hf & Htl); [lia|].
+  rewrite Hr in Er. subst r. unfold flip_at.
+  destruct Hib as [[-> Hb] | [Hi Hb]].
+  - change (set_nth (16 :: ?t) (N.to_nat 0) ?f) with (f 16 :: t).
+    eapply version_altered_rejected; [exact He | |].
+    + assert (G : b = 4 \/ b = 5 \/ b = 6 \/ b = 7) by lia. destruct G as [-> | [-> | [-> | ->]]]; reflexivity.
+    + assert (G : b = 4 \/ b = 5 \/ b = 6 \/ b = 7) by lia. destruct G as [-> | [-> | [-> | ->]]]; vm_compute; discriminate.
+  - assert (G : i = 2 \/ i = 3 \/ i = 4 \/ i = 5) by lia.
+    destruct G as [-> | [-> | [-> | ->]]].
+    + change (set_nth (?a0 :: ?a1 :: ?x :: ?t) (N.to_nat 2) ?f) with (a0 :: a1 :: f x :: t).
+      destruct (flip_bit_byte c2 b H2 Hb) as [G1 G2].
+      eapply length_altered_rejected; [exact He | | | | |]; try assumption. congruence.
+    + change (set_nth (?a0 :: ?a1 :: ?a2 :: ?x :: ?t) (N.to_nat 3) ?f) with (a0 :: a1 :: a2 :: f x :: t).
+      destruct (flip_bit_byte c3 b H3 Hb) as [G1 G2].
+      eapply length_altered_rejected; [exact He | | | | |]; try assumption. congruence.
+    + change (set_nth (?a0 :: ?a1 :: ?a2 :: ?a3 :: ?x :: ?t) (N.to_nat 4) ?f) with (a0 :: a1 :: a2 :: a3 :: f x :: t).
+      destruct (flip_bit_byte c4 b H4 Hb) as [G1 G2].
+      eapply length_altered_rejected; [exact He | | | | |]; try assumption. congruence.
+    + change (set_nth (?a0 :: ?a1 :: ?a2 :: ?a3 :: ?a4 :: ?x :: ?t) (N.to_nat 5) ?f) with (a0 :: a1 :: a2 :: a3 :: a4 :: f x :: t).
+      destruct (flip_bit_byte c5 b H5 Hb) as [G1 G2].
+      eapply length_altered_rejected; [exact He | | | | |]; try assumption. congruence.
+Qed.
